@@ -107,3 +107,217 @@ Theorem both_orders_enumerate_the_chunks :
   forall b G, OrderPerm.dense G -> G <> nil -> Permutation.Permutation (order_of b G) (map cid G).
 Proof. exact OrderPerm.order_of_perm. Qed.
 Print Assumptions both_orders_enumerate_the_chunks.
+
+(* ---- (b) the same data and labels in both outputs, (c2) no goto to the next label (OptimSame.v).
+   program_is_assembly / program_layout / optimize_changes_script_code_only / _text_only: the output is an assembly of pieces
+   that are a function of the program alone; only script pieces are rendered with the flag - every data segment (raw, text,
+   movement, mart, mapscripts header and table) is identical and at the same position in both outputs.
+   script_labels_both: label definitions of a rendered script in either setting; script_code_same_multiset /
+   script_commands_same_multiset: everything except goto, blank and label lines is the same multiset in both outputs.
+   optimized_gotos_go_backward / no_goto_to_a_later_label_optimized: in the optimized output no generated goto names a label
+   defined after it. goto_to_next_label_partial (PARTIAL, either setting): only across an empty chunk nothing jumps to.
+   optimize_accepts_same_programs: both settings accept the same inputs. *_from_source: for every accepted program. ---- *)
+From Coq Require Import Permutation. From Pory Require Import OptimSame. Open Scope list_scope.
+Theorem program_is_assembly :
+  forall (opt : bool) (mp : option text) (p : program),
+  emit_program_instrs opt mp p = assemble mp (map xname (texts p)) opt (program_pieces mp p).
+Proof. exact OptimSame.program_is_assembly. Qed.
+Print Assumptions program_is_assembly.
+
+Theorem program_layout :
+  forall (opt : bool) (mp : option text) (p : program) (code : list instr),
+  emit_program_instrs opt mp p = Emitter.Ok code <->
+  (exists codes : list (list instr), Forall2 (realizes mp (map xname (texts p)) opt) (program_pieces mp p) codes /\ code = List.concat codes).
+Proof. exact OptimSame.program_layout. Qed.
+Print Assumptions program_layout.
+
+Theorem optimize_changes_script_code_only :
+  forall (mp : option text) (p : program) (code0 code1 : list instr),
+  emit_program_instrs false mp p = Emitter.Ok code0 ->
+  emit_program_instrs true mp p = Emitter.Ok code1 ->
+  exists segs0 segs1 : list (list instr),
+    same_layout mp (map xname (texts p)) (program_pieces mp p) segs0 segs1 /\ code0 = List.concat segs0 /\ code1 = List.concat segs1.
+Proof. exact OptimSame.optimize_changes_script_code_only. Qed.
+Print Assumptions optimize_changes_script_code_only.
+
+Theorem optimize_changes_script_text_only :
+  forall (mp : option text) (p : program) (out0 out1 : text),
+  emit_program false mp p = Emitter.Ok out0 ->
+  emit_program true mp p = Emitter.Ok out1 ->
+  exists segs0 segs1 : list (list instr),
+    same_layout mp (map xname (texts p)) (program_pieces mp p) segs0 segs1 /\
+    out0 = List.concat (map (print_instrs mp) segs0) /\ out1 = List.concat (map (print_instrs mp) segs1).
+Proof. exact OptimSame.optimize_changes_script_text_only. Qed.
+Print Assumptions optimize_changes_script_text_only.
+
+Theorem program_pieces_scripts :
+  forall (mp : option text) (p : program), piece_scripts (program_pieces mp p) = NameClash.scripts_of (tops p).
+Proof. exact OptimSame.program_pieces_scripts. Qed.
+Print Assumptions program_pieces_scripts.
+
+Theorem script_pieces_are_program_bodies :
+  forall (mp : option text) (p : program) (n : text) (g : bool) (b : list stmt),
+  In (PScript n g b) (program_pieces mp p) -> In (n, g, b) (NameClash.scripts_of (tops p)) /\ In b (bodies_of (tops p)).
+Proof. exact OptimSame.script_pieces_are_program_bodies. Qed.
+Print Assumptions script_pieces_are_program_bodies.
+
+Theorem graph_scoped_labels_are_source_labels :
+  forall (body : list stmt) (w : wst),
+  emit_graph body = Emitter.Ok w ->
+  src_ok body -> Permutation (graph_ulabels (finals w)) (slabs body) /\ Forall (fun c : chunk => Forall simple (cstmts c)) (finals w).
+Proof. exact OptimSame.graph_scoped_labels_are_source_labels. Qed.
+Print Assumptions graph_scoped_labels_are_source_labels.
+
+Theorem script_labels_both :
+  forall (mp : option text) (tl : list text) (name : text) (glob : bool) (body : list stmt) (w : wst) (code0 code1 : list instr),
+  emit_graph body = Emitter.Ok w ->
+  src_ok body ->
+  emit_script mp tl name glob false body = Emitter.Ok code0 ->
+  emit_script mp tl name glob true body = Emitter.Ok code1 ->
+  exists gen0 gen1 : list Z,
+    Permutation (labels_of code0) ((name, glob) :: slabs body ++ map (fun i : Z => (lbl name i, false)) gen0) /\
+    Permutation (labels_of code1) ((name, glob) :: slabs body ++ map (fun i : Z => (lbl name i, false)) gen1) /\
+    NoDup gen0 /\
+    NoDup gen1 /\
+    (forall i : Z, In i gen0 -> (0 < i < Z.of_nat (Datatypes.length (finals w)))%Z /\ In (lbl name i) (targets_of code0)) /\
+    (forall i : Z, In i gen1 -> (0 < i < Z.of_nat (Datatypes.length (finals w)))%Z /\ In (lbl name i) (targets_of code1)).
+Proof. exact OptimSame.script_labels_both. Qed.
+Print Assumptions script_labels_both.
+
+Theorem script_code_same_multiset :
+  forall (mp : option text) (tl : list text) (name : text) (glob : bool) (body : list stmt) (w : wst) (code0 code1 : list instr),
+  emit_graph body = Emitter.Ok w ->
+  src_ok body ->
+  emit_script mp tl name glob false body = Emitter.Ok code0 ->
+  emit_script mp tl name glob true body = Emitter.Ok code1 -> Permutation (filter essential code0) (filter essential code1).
+Proof. exact OptimSame.script_code_same_multiset. Qed.
+Print Assumptions script_code_same_multiset.
+
+Theorem script_commands_same_multiset :
+  forall (mp : option text) (tl : list text) (name : text) (glob : bool) (body : list stmt) (w : wst) (code0 code1 : list instr),
+  emit_graph body = Emitter.Ok w ->
+  src_ok body ->
+  emit_script mp tl name glob false body = Emitter.Ok code0 ->
+  emit_script mp tl name glob true body = Emitter.Ok code1 -> Permutation (filter is_cmd code0) (filter is_cmd code1).
+Proof. exact OptimSame.script_commands_same_multiset. Qed.
+Print Assumptions script_commands_same_multiset.
+
+Theorem optimized_gotos_go_backward :
+  forall (mp : option text) (tl : list text) (name : text) (glob : bool) (body : list stmt) (w : wst) (code : list instr),
+  emit_graph body = Emitter.Ok w ->
+  src_ok body ->
+  (Z.of_nat (Datatypes.length (finals w)) <= 10 ^ 40)%Z ->
+  emit_script mp tl name glob true body = Emitter.Ok code ->
+  forall (pre : list instr) (l : text) (post : list instr), code = pre ++ IGoto l :: post -> ~ In l (lnames post).
+Proof. exact OptimSame.optimized_gotos_go_backward. Qed.
+Print Assumptions optimized_gotos_go_backward.
+
+Theorem no_goto_to_a_later_label_optimized :
+  forall (mp : option text) (tl : list text) (name : text) (glob : bool) (body : list stmt) (w : wst) (code : list instr),
+  emit_graph body = Emitter.Ok w ->
+  src_ok body ->
+  (Z.of_nat (Datatypes.length (finals w)) <= 10 ^ 40)%Z ->
+  emit_script mp tl name glob true body = Emitter.Ok code ->
+  forall (pre : list instr) (l : text) (mid : list instr) (g : bool) (post : list instr),
+  code = pre ++ IGoto l :: mid ++ ILabel l g :: post -> False.
+Proof. exact OptimSame.no_goto_to_a_later_label_optimized. Qed.
+Print Assumptions no_goto_to_a_later_label_optimized.
+
+Theorem goto_to_next_label_partial :
+  forall (mp : option text) (tl : list text) (name : text) (glob : bool) (body : list stmt) (w : wst) (opt : bool) (code : list instr),
+  emit_graph body = Emitter.Ok w ->
+  src_ok body ->
+  (Z.of_nat (Datatypes.length (finals w)) <= 10 ^ 40)%Z ->
+  emit_script mp tl name glob opt body = Emitter.Ok code ->
+  forall (pre : list instr) (l : text) (mid : list instr) (g : bool) (post : list instr),
+  code = pre ++ IGoto l :: mid ++ ILabel l g :: post ->
+  Forall skip mid ->
+  exists (l1 : list Z) (A B : Z) (l2 : list Z) (cA cB : chunk),
+    order_of opt (finals w) = l1 ++ A :: B :: l2 /\
+    get_chunk (finals w) A = Some cA /\
+    get_chunk (finals w) B = Some cB /\
+    l = lbl name (tail_of cA) /\ tail_of cA <> B /\ B <> 0%Z /\ cstmts cB = [] /\ ~ In (lbl name B) (targets_of code).
+Proof. exact OptimSame.goto_to_next_label_partial. Qed.
+Print Assumptions goto_to_next_label_partial.
+
+Theorem no_goto_to_next_label_checked :
+  forall (mp : option text) (tl : list text) (name : text) (glob : bool) (body : list stmt) (w : wst) (opt : bool) (code : list instr),
+  emit_graph body = Emitter.Ok w ->
+  src_ok body ->
+  (Z.of_nat (Datatypes.length (finals w)) <= 10 ^ 40)%Z ->
+  emit_script mp tl name glob opt body = Emitter.Ok code ->
+  no_dead_empty_chunk name (finals w) code = true ->
+  forall (pre : list instr) (l : text) (mid : list instr) (g : bool) (post : list instr),
+  code = pre ++ IGoto l :: mid ++ ILabel l g :: post -> Forall skip mid -> False.
+Proof. exact OptimSame.no_goto_to_next_label_checked. Qed.
+Print Assumptions no_goto_to_next_label_checked.
+
+Theorem optimize_accepts_same_scripts :
+  forall (mp : option text) (tl : list text) (name : text) (glob : bool) (body : list stmt),
+  src_ok body ->
+  (exists code : list instr, emit_script mp tl name glob false body = Emitter.Ok code) <->
+  (exists code : list instr, emit_script mp tl name glob true body = Emitter.Ok code).
+Proof. exact OptimSame.optimize_accepts_same_scripts. Qed.
+Print Assumptions optimize_accepts_same_scripts.
+
+Theorem optimize_accepts_same_programs :
+  forall (mp : option text) (p : program),
+  Forall src_ok (bodies_of (tops p)) ->
+  (exists out : text, emit_program false mp p = Emitter.Ok out) <-> (exists out : text, emit_program true mp p = Emitter.Ok out).
+Proof. exact OptimSame.optimize_accepts_same_programs. Qed.
+Print Assumptions optimize_accepts_same_programs.
+
+Theorem script_labels_from_source :
+  forall (hl hd hs : N -> bool) (autovars : list (text * autovar)) (switches : list (text * text)) (ee : bool) (fc : fontcfg) 
+    (cli_font : text) (cli_maxlen : Z) (src : text) (p : program),
+  parse_program autovars switches ee (parse_format fc cli_font cli_maxlen ee) (lex hl hd hs src) = Ok p ->
+  forall (body : list stmt) (mp : option text) (tl : list text) (name : text) (glob : bool) (w : wst) (code0 code1 : list instr),
+  In body (bodies_of (tops p)) ->
+  emit_graph body = Emitter.Ok w ->
+  emit_script mp tl name glob false body = Emitter.Ok code0 ->
+  emit_script mp tl name glob true body = Emitter.Ok code1 ->
+  exists gen0 gen1 : list Z,
+    Permutation (labels_of code0) ((name, glob) :: slabs body ++ map (fun i : Z => (lbl name i, false)) gen0) /\
+    Permutation (labels_of code1) ((name, glob) :: slabs body ++ map (fun i : Z => (lbl name i, false)) gen1) /\
+    NoDup gen0 /\
+    NoDup gen1 /\
+    (forall i : Z, In i gen0 -> (0 < i < Z.of_nat (Datatypes.length (finals w)))%Z /\ In (lbl name i) (targets_of code0)) /\
+    (forall i : Z, In i gen1 -> (0 < i < Z.of_nat (Datatypes.length (finals w)))%Z /\ In (lbl name i) (targets_of code1)).
+Proof. exact OptimSame.script_labels_from_source. Qed.
+Print Assumptions script_labels_from_source.
+
+Theorem script_code_same_multiset_from_source :
+  forall (hl hd hs : N -> bool) (autovars : list (text * autovar)) (switches : list (text * text)) (ee : bool) (fc : fontcfg) 
+    (cli_font : text) (cli_maxlen : Z) (src : text) (p : program),
+  parse_program autovars switches ee (parse_format fc cli_font cli_maxlen ee) (lex hl hd hs src) = Ok p ->
+  forall (body : list stmt) (mp : option text) (tl : list text) (name : text) (glob : bool) (w : wst) (code0 code1 : list instr),
+  In body (bodies_of (tops p)) ->
+  emit_graph body = Emitter.Ok w ->
+  emit_script mp tl name glob false body = Emitter.Ok code0 ->
+  emit_script mp tl name glob true body = Emitter.Ok code1 ->
+  Permutation (filter essential code0) (filter essential code1) /\ Permutation (filter is_cmd code0) (filter is_cmd code1).
+Proof. exact OptimSame.script_code_same_multiset_from_source. Qed.
+Print Assumptions script_code_same_multiset_from_source.
+
+Theorem optimized_gotos_go_backward_from_source :
+  forall (hl hd hs : N -> bool) (autovars : list (text * autovar)) (switches : list (text * text)) (ee : bool) (fc : fontcfg) 
+    (cli_font : text) (cli_maxlen : Z) (src : text) (p : program),
+  parse_program autovars switches ee (parse_format fc cli_font cli_maxlen ee) (lex hl hd hs src) = Ok p ->
+  forall (body : list stmt) (mp : option text) (tl : list text) (name : text) (glob : bool) (w : wst) (code : list instr),
+  In body (bodies_of (tops p)) ->
+  emit_graph body = Emitter.Ok w ->
+  (Z.of_nat (Datatypes.length (finals w)) <= 10 ^ 40)%Z ->
+  emit_script mp tl name glob true body = Emitter.Ok code ->
+  forall (pre : list instr) (l : text) (post : list instr), code = pre ++ IGoto l :: post -> ~ In l (lnames post).
+Proof. exact OptimSame.optimized_gotos_go_backward_from_source. Qed.
+Print Assumptions optimized_gotos_go_backward_from_source.
+
+Theorem optimize_accepts_same_from_source :
+  forall (hl hd hs : N -> bool) (autovars : list (text * autovar)) (switches : list (text * text)) (ee : bool) (fc : fontcfg) 
+    (cli_font : text) (cli_maxlen : Z) (src : text) (p : program),
+  parse_program autovars switches ee (parse_format fc cli_font cli_maxlen ee) (lex hl hd hs src) = Ok p ->
+  forall mp : option text,
+  (exists out : text, emit_program false mp p = Emitter.Ok out) <-> (exists out : text, emit_program true mp p = Emitter.Ok out).
+Proof. exact OptimSame.optimize_accepts_same_from_source. Qed.
+Print Assumptions optimize_accepts_same_from_source.
+
